@@ -19,19 +19,20 @@ EXTENDS Naturals, Sequences, FiniteSets, TLC
 CONSTANTS MaxChanges, Core     \* Core: TRUE = only the core (element, kind) pairs may change (quick tier)
 
 Langs == {"", "A", "B"}
-TextKinds == {"label", "hint", "guidance", "cmsg", "rmsg"}
+TextKinds == {"label", "hint", "guidance", "cmsg", "rmsg", "noapp"}
 MediaKinds == {"image", "audio"}
 QKinds == <<"label", "hint", "guidance", "cmsg", "rmsg", "image", "audio">>
 \* (element, kind) pairs in a fixed order; a case changes them in increasing order only (no permutations)
 Pairs == <<
   <<"q1", "label">>, <<"q1", "hint">>, <<"q1", "guidance">>, <<"q1", "cmsg">>, <<"q1", "image">>,
   <<"g", "label">>, <<"s1", "label">>, <<"L.1", "label">>, <<"L.1", "image">>, <<"L.2", "label">>, <<"M.1", "label">>, <<"s3", "label">>,
+  <<"q1", "noapp">>,
   \* ---- the rest only when ~Core
   <<"q1", "rmsg">>, <<"q1", "audio">>,
   <<"q2", "label">>, <<"q2", "hint">>, <<"q2", "guidance">>, <<"q2", "cmsg">>, <<"q2", "rmsg">>, <<"q2", "image">>, <<"q2", "audio">>,
   <<"s1", "hint">>, <<"s2", "label">>, <<"s2", "hint">>, <<"s3", "hint">>,
   <<"L.1", "audio">>, <<"L.2", "image">>, <<"L.2", "audio">>, <<"M.1", "image">>, <<"M.1", "audio">> >>
-NCore == 12
+NCore == 13
 NPairs == IF Core THEN NCore ELSE Len(Pairs)
 Questions == {"q1", "q2", "s1", "s2", "s3"}
 BasePat(p) == IF p[2] = "label" THEN {""} ELSE {}
@@ -39,18 +40,20 @@ Patterns == SUBSET Langs
 
 VARIABLES pat,     \* function 1..Len(Pairs) -> pattern (set of languages in which the cell is written)
           dl,      \* default language: "" (unset) | "A" | "B" | "Z" (a language no column mentions)
+          refs,    \* TRUE: every text cell also embeds a ${reference} (messages with references must go through itext)
           nchg, last
-ivars == <<pat, dl, nchg, last>>
+ivars == <<pat, dl, refs, nchg, last>>
 
 IInit == /\ pat = [i \in 1..Len(Pairs) |-> BasePat(Pairs[i])]
          /\ dl \in {"", "A", "B", "Z"}
+         /\ refs \in BOOLEAN
          /\ nchg = 0 /\ last = 0
 \* a question must keep a label in some language (otherwise the form is rejected for a different reason)
 Change(i, P) ==
   /\ nchg < MaxChanges /\ i > last /\ i <= NPairs
   /\ P # pat[i]
   /\ (Pairs[i][1] \in Questions /\ Pairs[i][2] = "label") => P # {}
-  /\ pat' = [pat EXCEPT ![i] = P] /\ nchg' = nchg + 1 /\ last' = i /\ UNCHANGED dl
+  /\ pat' = [pat EXCEPT ![i] = P] /\ nchg' = nchg + 1 /\ last' = i /\ UNCHANGED <<dl, refs>>
 INext == \E i \in 1..Len(Pairs), P \in Patterns : Change(i, P)
 ISpec == IInit /\ [][INext]_ivars
 
